@@ -1,3 +1,5 @@
+from numbers import Number
+
 import numpy as np
 
 from PEPit.expression import Expression
@@ -266,7 +268,7 @@ class Point(object):
         """
 
         # Works only for power=2
-        assert power == 2
+        assert isinstance(power, Number) and power == 2
 
         # Return the inner product of a point by itself
         return self.__rmul__(self)
